@@ -18,7 +18,7 @@ INFO = {
     "outside": ["request sequences longer than the bound", "the C-level JSON codec"],
     "stubs": ["json / sys shims", "memfs", "model client: four dicts updated by dict.update with each reply (v1: a null value marks the option invisible)"],
 }
-BUDGET = {"quick": 240, "thorough": 1100}
+BUDGET = {"quick": 240, "thorough": 800}
 
 
 class Client:
